@@ -91,7 +91,12 @@ def rw_rename(rng, xml, targets=None):
     mp = {}
     for k, n in enumerate(names):
         mp[n] = (targets or {}).get(n) or rng.choice(['zq%d_%s', 'N%d%s_', '_%d%s', 'Qx%dy%s']) % (k, n[::-1] if rng.random() < 0.3 else n)
-    sub = lambda t: re.sub(r'"[^"]*"|\b[A-Za-z_]\w*\b', lambda m: mp.get(m.group(0), m.group(0)), t)        # string literals are left alone
+    # inside text blocks a reserved word is the keyword, whatever a location happens to be called (a location named `default` next to
+    # `chan priority a < default`): only the <name> elements are renamed for such names
+    import gen_lex
+    reserved = KEYWORDS | {w for w, _, _ in gen_lex.load()['keywords']}
+    mpb = {k: v for k, v in mp.items() if k not in reserved or (targets and k in targets)}
+    sub = lambda t: re.sub(r'"[^"]*"|\b[A-Za-z_]\w*\b', lambda m: mpb.get(m.group(0), m.group(0)), t)        # string literals are left alone
     new = [sub(t) for _, _, _, t in blocks(xml)]
     x2 = rebuild(xml, new)
     x2 = re.sub(r'(<name[^>]*>)(\w+)(</name>)', lambda m: m.group(1) + mp.get(m.group(2), m.group(2)) + m.group(3), x2)
